@@ -63,7 +63,7 @@ def r_eq_form(ck: Checker) -> None:
         if bag(l_) and bag(r_) and ".origin" in norm(l_) and ".origin" in norm(r_) and any(isinstance(x, ast.Call) and isinstance(x.func, ast.Attribute)
                                                                                           and x.func.attr in ("dfs", "bfs") for x in ast.walk(c)):
             ck.violation("R-EQ-FORM", f, c, "_eq_fn compares the origins position by position",
-                         construct=f"_eq_fn compares {bag(l_)} of the descendants' origins of each operand: two trees whose origins are swapped between positions (or repeated) are equal")
+                         positive=True, construct=f"_eq_fn compares {bag(l_)} of the descendants' origins of each operand: two trees whose origins are swapped between positions (or repeated) are equal")
             return
 
     def analyse_positions(it: ast.expr, tg: ast.expr, test: ast.expr, where: ast.AST, differ_means_true: bool) -> bool:
